@@ -281,6 +281,8 @@ def tensor_method(it, tv, name, args, kwargs, node):
         axes = _axes_arg(args, kwargs, rank)
         if axes is None:
             raise Unsupported("%s with unknown axis" % name, node, it.site(node))
+        if axes == "all" and rank == 1:
+            axes = (-1,)  # reducing a vector over all axes is reducing its only axis (one normal form)
         try:
             new_shape = reduce_shape(shape, axes)
         except ShapeMismatch as e:
